@@ -96,7 +96,7 @@ def run_program(ls, rng, fc, mask, nzcv):
     regs[6] = 0x1000                         # load base (aligned)
     regs[13] = 0x7000
     desc = scen.prepare(ctx, rng, 't16', 0xBF00 | (fc << 4) | mask, mode=rng.choice(['svc', 'usr', 'sys', 'irq']), itpos='out',
-                        nzcv=nzcv, regs=regs, aif=0b111)
+                        nzcv=nzcv, regs=regs, aif=0b111, e=1 if rng.random() < 0.2 else 0)
     cpu = ctx.cpu
     r = cpu.registers
     r.sctlr.v = 0
